@@ -95,6 +95,12 @@ CLAIMS = {
          'views proved against the reviewed architectural table.',
          'lowest_set_bit_ref and is_ones are covered by correspondence only; domain of negative shift/width arguments '
          'is outside the model (DESIGN 1.2).'),
+
+ 'C18': ('decode is total: for every instruction word and state, decode_instruction (ARM, Thumb 16 and 32 bit, every sub-decoder) '
+         'returns a class, None, UNDEFINED or the documented not-implemented outcome and leaves the state unchanged, never a host '
+         'error; with C11_dispatch an UNDEFINED outcome becomes the architectural exception.',
+         'Partial: totality of from_bitarray and of the ~270 execute() bodies is not a theorem; it is searched by whole-step runs '
+         'over sampled words (all 2^16 Thumb halfwords in the thorough tier), which found and led to the repair of four crashes.'),
 }
 DESIGN_REF = {k: f'DESIGN.md 3 ({k})' for k in CLAIMS}
 
